@@ -10,17 +10,18 @@ CONSTANTS
   MixOK <- MixSmall
   Root <- ISqrtSmall
   Advs = {1, 3}
-  LagVals = {0, 1, 2, 3, 4}
+  LagVals = {0, 1, 3}
+  RootVals = {1, 2}
   TokIds = {1, 2}
   N = 2
   T0 = 3
   MaxNow = 7
-  MaxOps = 7
+  MaxOps = 6
   Procs = {1, 2}
   Conc = FALSE
   Variant = "code"
   Emit = FALSE
-INVARIANTS IConservation INonNegative IZeroAtRest Envelope IRanges LockOK OneLogger
+INVARIANTS IConservation INonNegative IZeroAtRest Envelope IRanges LockOK OneLogger IReqConservation IDrawsLaw
 PROPERTY AbsSpec
 VIEW IView
 CHECK_DEADLOCK FALSE
